@@ -346,6 +346,67 @@ def name_param_summary(fb, fn, evs, is_value):
     return out
 
 
+def strings_of(fb, fn, nid, depth=0):
+    """The finite set of strings an expression of type const char* / char can denote: literals, ?: chains of literals (nullptr
+    contributes nothing), locals that only name such an expression, lookup helpers all of whose returns are such expressions, and
+    parameters (union over the literal arguments at the call sites).  None if it cannot be enumerated."""
+    from .codec import local_inits
+    if depth > 5:
+        return None
+    n = fn.sn(nid)
+    if n is None:
+        return None
+    k = n.get('k')
+    if k == 'lit':
+        if 'str' in n:
+            return {n['str']}
+        if n.get('char') and 'cv' in n:
+            return {chr(int(n['cv']) & 0xff)}
+        if n.get('null') or n.get('cv') == '0':
+            return set()
+        return None
+    if k == 'cast':
+        return strings_of(fb, fn, n['sub'], depth + 1)
+    if k == 'condop':
+        a, b = strings_of(fb, fn, n['then'], depth + 1), strings_of(fb, fn, n['else'], depth + 1)
+        return None if a is None or b is None else a | b
+    if k == 'var':
+        pidx = {p['d']: i for i, p in enumerate(fn.params)}
+        if n.get('d') in pidx:
+            out = set()
+            found = False
+            for g in fb.functions:
+                if not g.has_cfg:
+                    continue
+                for c in g.all_nodes():
+                    if c.get('k') == 'call' and c.get('u') == fn.usr and len(c.get('args', [])) > pidx[n['d']]:
+                        found = True
+                        x = strings_of(fb, g, c['args'][pidx[n['d']]], depth + 1)
+                        if x is None:
+                            return None
+                        out |= x
+            return out if found else None
+        init = local_inits(fn).get(n.get('d'))
+        if init is not None:
+            return strings_of(fb, fn, init, depth + 1)
+        return None
+    if k == 'call' and n.get('u'):
+        for g in fb.by_usr.get(n['u'], []):
+            if not g.has_cfg:
+                continue
+            out = set()
+            rets = [r for r in g.all_nodes() if r.get('k') == 'return' and 'sub' in r]
+            if not rets:
+                return None
+            for r in rets:
+                x = strings_of(fb, g, r['sub'], depth + 1)
+                if x is None:
+                    return None
+                out |= x
+            return out
+    return None
+
+
 def xml_writer_fields(fb, classes):
     """([WField], problems) for the XML writer."""
     fns = writer_functions(fb, classes)
@@ -424,6 +485,20 @@ def xml_writer_fields(fb, classes):
                                 if vp < len(c['args']):
                                     w.getters |= entity_accessors(f, c['args'][vp])
                             fields.append(w)
+        # an element name assembled from pieces: `out += "  <"; out += name;` where the pieces are enumerable string sets
+        for e in evs:
+            if e.kind not in ('lit', 'param'):
+                continue
+            c = f.nodes[e.node]
+            pieces = set(e.texts) if e.kind == 'lit' else (strings_of(fb, f, c['args'][0]) or set())
+            if not any(t.endswith('<') for t in pieces):
+                continue
+            for nx in nearest_after(f, e, evs, lambda x: False, lambda x: x is not e and x.kind in ('lit', 'param', 'value')):
+                names = strings_of(fb, f, f.nodes[nx.node]['args'][0]) if f.nodes[nx.node].get('args') else None
+                for t in sorted(names or ()):
+                    if re.match(r'^[A-Za-z_][\w.-]*$', t):
+                        ol.append((nx.node, 0, t))
+                        fields.append(WField(t, f, nx.node, kind='element'))
         opens[id(f)] = ol
 
     # ---- element context of every attribute: nearest dominating element-open literal, else inherited from the call sites
